@@ -226,6 +226,8 @@ def translate() -> tuple[str, dict]:
     if period is None or ping is None:
         raise TranslatorError("periodic tasks do_circuits/do_ping are not registered in __init__")
     meta["sweep_interval"] = period
+    if any(isinstance(n, (ast.Return, ast.Raise)) for n in ast.walk(_fn(tc, "do_circuits"))):
+        raise TranslatorError("do_circuits can leave (return/raise) before it reaches self.do_remove()")
     dc = _body(_fn(tc, "do_circuits"))
     if not any(isinstance(st, ast.Expr) and ast.unparse(st) == "self.do_remove()" for st in dc):
         raise TranslatorError("do_circuits no longer calls self.do_remove() unconditionally")
